@@ -23,6 +23,16 @@ EXTERNAL_MODEL = {
     "llvm.dbg.value": dict(writes=[], ret=[]),
     "llvm.dbg.declare": dict(writes=[], ret=[]),
     "llvm.dbg.label": dict(writes=[], ret=[]),
+    # stack / lifetime / hint intrinsics: no effect on program-visible memory
+    "llvm.stacksave": dict(writes=[], ret=[]),
+    "llvm.stackrestore": dict(writes=[], ret=[]),
+    "llvm.lifetime.start.p0i8": dict(writes=[], ret=[]),
+    "llvm.lifetime.end.p0i8": dict(writes=[], ret=[]),
+    "llvm.assume": dict(writes=[], ret=[]),
+    "llvm.expect.i64": dict(writes=[], ret=[]),
+    "llvm.fabs.f32": dict(writes=[], ret=[]),
+    "llvm.fabs.f64": dict(writes=[], ret=[]),
+    "llvm.memmove.p0i8.p0i8.i64": dict(writes=[0], ret=[], copies=(1, 0)),
     # libc allocation entry points: only legal as initialisers of the three
     # pointers; a *call* is reported by C13 but still modelled soundly here
     "malloc": dict(writes=[], ret=[], fresh=True),
